@@ -311,12 +311,28 @@ class Instance:
         ba = sig.bind(*args, **(kwargs or {}))
         ba.apply_defaults()
         key = tuple(ba.arguments.values())
-        ev.push(self.path, key, cached=True, kind="space")
-        try:
-            params = fn(*key)
-        except BaseException:
-            ev.pop(failed=True)
-            raise
+        node = ev.push(self.path, key, cached=True, kind="space")
+        if node.elem in ev.memo:
+            # the ItemSpace already exists: its parameter formula is not run again (re-derive the
+            # parameters quietly: no faults, no call-tree entries)
+            ev.quiet += 1
+            try:
+                params = fn(*key)
+            finally:
+                ev.quiet -= 1
+            node.is_input = True
+            node.children = []
+        else:
+            try:
+                params = fn(*key)
+            except BaseException as e:
+                if not hasattr(e, "_ref_stack"):
+                    try:
+                        e._ref_stack = [n.elem for n in ev.stack]
+                    except Exception:
+                        pass
+                ev.pop(failed=True)
+                raise
         ev.pop()
         base = self.defpath
         extra = {}
@@ -410,12 +426,14 @@ class Evaluator:
     ``tick`` (callable or None) replaces the model-level reference of that name.
     """
 
-    def __init__(self, rm, tick=None, maxdepth=None):
+    def __init__(self, rm, tick=None, maxdepth=None, memo=None):
         self.rm = rm
         self.tick = tick
         self.stack = []
         self.roots = []
         self.maxdepth = maxdepth
+        self.memo = memo or {}      # elem -> value : elements treated as already held (leaves)
+        self.quiet = 0
         self._static = {}
         self._code = {}
 
@@ -446,8 +464,8 @@ class Evaluator:
 
     # -- values of references
     def ref_value(self, v, inst, origin):
-        if callable(self.tick) and v == "<tick>":
-            return self.tick
+        if v == "<tick>":
+            return self.tick if callable(self.tick) else (lambda: 0)
         if is_obj(v):
             return self.resolve_obj(v["obj"], inst, origin)
         return v
@@ -495,10 +513,12 @@ class Evaluator:
         return fns[0]
 
     # -- call tree
-    def push(self, instpath, key, cached, kind="cells", name=None):
-        if self.maxdepth is not None and len(self.stack) > self.maxdepth:
+    def push(self, instpath, key, cached, kind="cells", name=None, leaf=False):
+        if self.maxdepth is not None and len(self.stack) > self.maxdepth and not leaf:
             from modelx.core.errors import DeepReferenceError
-            raise DeepReferenceError("ref: formula chain exceeded")
+            e = DeepReferenceError("ref: formula chain exceeded")
+            e._ref_stack = [n.elem for n in self.stack]
+            raise e
         elem = ((instpath + "." + name) if name else instpath, keyjson(key))
         node = CallNode(elem, cached)
         if self.stack:
@@ -529,18 +549,28 @@ class Evaluator:
         # inputs belong to the space that holds them: static space's own/derived cells each have
         # their own inputs; tracked per (instance path, cells)
         inputs = self.inputs_of(inst, cname)
-        node = self.push(inst.path, key, c.cached, name=cname)
+        elem0 = (inst.path + "." + cname, keyjson(key))
+        leaf = c.cached and (key in inputs or elem0 in self.memo)
+        node = self.push(inst.path, key, c.cached, name=cname, leaf=leaf)
         try:
             if c.cached and key in inputs:
                 node.is_input = True
                 v = inputs[key]
+            elif c.cached and node.elem in self.memo:
+                node.is_input = True
+                v = self.memo[node.elem]
             else:
                 if c.cached:
                     hash(key)
                 v = fn(*key)
                 if v is None and not rm.allow_none_of(inst.defpath, cname) and c.cached:
                     raise NoneReturnedError("ref")
-        except BaseException:
+        except BaseException as e:
+            if not hasattr(e, "_ref_stack"):
+                try:
+                    e._ref_stack = [n.elem for n in self.stack]
+                except Exception:
+                    pass
             self.pop(failed=True)
             raise
         node.value = v
